@@ -20,7 +20,7 @@ RULE = ('bounded-exhaustive: every nesting context = word of length 0..3 over {I
         'configuration and the top-level observation; the top tape\'s flags after the run must equal the configuration; '
         'SET_FLAG / UNSET_FLAG k must change exactly integer flag k. non-trivial = depth >= 1 and a non-default '
         'configuration; all cases distinct by construction (context word, probe, configuration).'
-        ' Flag instructions for flags 0-10 under 39 placements relative to the probe: direct, persist (idle LOOP / CALL / IF / TRY / EVAL in between), inherit (probe inside each of 11 constructs entered afterwards), viafn (the instruction in a function called inside the construct), noopcall (metamorphic: an idle CALL next to the instruction changes nothing observed after the construct).')
+        ' Flag instructions for flags 0-10 under 41 placements relative to the probe: direct, persist (idle LOOP / CALL / IF / TRY / EVAL in between), inherit (probe inside each of 11 constructs entered afterwards), viafn (the instruction in a function called inside the construct), noopcall (metamorphic: an idle CALL next to the instruction changes nothing observed after the construct), loopcarry (instruction in iteration 1 of a LOOP - directly or in a called function -, probe in iteration 2).')
 ASSUMPTIONS = ['the configuration is handed to run_tape exactly as run_script does (tape.contracts, tape.plugins, '
                'additional_flags) so that the cache can be inspected after failed runs as well',
                'clock pinned']
@@ -165,6 +165,9 @@ PROBES['flag10'] = (push(b'abc') + op('OP_CHECK_TEMPLATE', 1) + op('OP_POP0'), '
 PROBES['ts_threshold'] = (push((NOW).to_bytes(4, 'big')) + op('OP_CHECK_TIMESTAMP') + W(b'r'), 'threshold', 'ts_threshold')
 PROBES['epoch_threshold'] = (push((NOW + 30).to_bytes(4, 'big')) + op('OP_CHECK_EPOCH') + W(b'r'), 'threshold', 'epoch_threshold')
 PROBES['disallow_OP_EVAL'] = (push(op('OP_TRUE') + W(b'ev')) + op('OP_EVAL'), 'noeval', None)
+# MERKLEVAL and the TAPROOT script path are documented as "... then OP_EVAL": a disallowed EVAL stays disallowed through them
+PROBES['disallow_OP_EVAL:MERKLEVAL'] = (wrap('MERKLEVAL', op('OP_TRUE') + W(b'ev')), 'noeval', None)
+PROBES['disallow_OP_EVAL:TAPROOT-scriptpath'] = (wrap('TAPROOT', op('OP_TRUE') + W(b'ev')), 'noeval', None)
 PROBES['eval_return'] = (push(op('OP_TRUE') + W(b'in') + op('OP_RETURN')) + op('OP_EVAL') + op('OP_TRUE') + W(b'after'), 'evalreturn', None)
 _SIGOPS = {
     'GET_MESSAGE': op('OP_GET_MESSAGE', 0) + op('OP_POP0'),
@@ -347,7 +350,7 @@ def judge(pname, word, cfgname, _attr=True):
 
 PERSIST = ['LOOP', 'DEFCALL', 'IF', 'TRY', 'EVAL']
 PLACEMENTS = ([('direct', None)] + [('persist', x) for x in PERSIST] + [('inherit', y) for y in CTX] +
-              [('viafn', y) for y in CTX] + [('noopcall', y) for y in CTX])
+              [('viafn', y) for y in CTX] + [('noopcall', y) for y in CTX] + [('loopcarry', None), ('loopcarry', 'fn')])
 _IDLE = op('OP_TRUE') + op('OP_POP0')
 
 
@@ -376,6 +379,14 @@ def judge_flagop(opname, k, word, placement=('direct', None)):
         # level, it acts on the flags its caller runs with
         code = op('OP_DEF', 8) + L2(flagop) + flagop + wrap(arg, op('OP_CALL', 8) + pcode)
         what = 'in-a-function-called-inside-%s-does-not-act-on-the-caller' % arg
+    elif how == 'loopcarry':
+        # the instruction runs at the end of the first iteration of a two-iteration LOOP, the probe in the second one
+        # (inside an IF entered after the instruction): nothing but a flag instruction changes the flag in between
+        act = flagop if arg is None else op('OP_CALL', 8)
+        body = op('OP_POP0') + op('OP_IF') + L2(pcode) + pcode + act
+        code = ((op('OP_DEF', 8) + L2(flagop) + flagop if arg else b'') + op('OP_FALSE') + op('OP_TRUE') + op('OP_TRUE') + op('OP_FALSE') + op('OP_TRUE') +
+                op('OP_LOOP') + L2(body) + body + op('OP_POP0'))
+        what = 'lost-between-two-iterations-of-a-LOOP' + ('-when-in-a-called-function' if arg else '')
     elif how == 'noopcall':
         # metamorphic: calling an unrelated idle function next to the flag instruction changes nothing that is observed
         # after the construct (whatever scoping the construct has)
@@ -493,7 +504,7 @@ def task_flagops(ctx):
                     n += 1
                     for s, d in fails:
                         ctx.fail('flagop', s, {'check': 'flagop', 'context': list(word), 'op': opname, 'flag': k, 'placement': list(pl)}, d)
-    ctx.exhaustive['flag instruction x integer flag 0-10 x contexts of depth <= 2 x placement (direct, 5 persist, 11 inherit, 11 via function, 11 idle call)'] = n
+    ctx.exhaustive['flag instruction x integer flag 0-10 x contexts of depth <= 2 x placement (direct, 5 persist, 11 inherit, 11 via function, 11 idle call, 2 loop-carried)'] = n
     ctx.sample({'check': 'flagop', 'context': ['IF'], 'op': 'OP_UNSET_FLAG', 'flag': 1})
 
 
